@@ -12,7 +12,7 @@
    else differs: [walkx] and [walk] return the same outcome and the same final
    state up to the counter (Proofs/CheckerExcuseRel.v), so [render_x] is [render]
    with the refined counter.  Definitions only. *)
-From Soy Require Import Model.Bytes Model.Num Model.Values Model.Outcome Model.Ast Model.Escape Model.Interp Model.RefView.
+From Soy Require Import Model.Bytes Model.Num Model.Values Model.Outcome Model.Ast Model.Escape Model.Interp Model.RefView Model.MsgId Model.Compile Model.Checker Spec.Safety.
 Open Scope N_scope.
 
 Definition with_unbound (st : mstate) (u : nat) : mstate :=
@@ -85,3 +85,44 @@ Definition render_x (fuel : nat) (name : bstr) (data_id : N) (data : list (bstr 
       end
   end.
 End Excused.
+
+(* ------------------------------------------------------------------ *)
+(* shape of the trees the parser builds and the AST dump transmits, evaluated by the harness on every
+   registry: the items of a map literal are listed by strictly increasing key (so that the sorted visit
+   of MapLiteralNode.Children() is the listed order), soydoc params are SoyDocParamNodes *)
+Fixpoint keys_sortedb (l : list bstr) : bool :=
+  match l with
+  | [] => true
+  | k :: r => match r with [] => true | k' :: _ => bstr_ltb k k' end && keys_sortedb r
+  end.
+Definition map_sorted (n : node) : bool :=
+  match n with
+  | NMapLit _ items => keys_sortedb (map fst items)
+  | NSoyDoc _ ps => forallb (fun c => match c with NSoyDocParam _ _ _ => true | _ => false end) ps   (* []*SoyDocParamNode *)
+  | _ => true
+  end.
+Definition maps_sorted (n : node) : bool := node_all map_sorted n.
+
+
+Definition registry_maps_sorted (reg : registry) : bool := forallb (fun t => maps_sorted (t_node t)) (r_templates reg).
+
+(* CheckDataRefs as Model/Compile.v (C13) has it, children of map literals in sorted key order,
+   with the error classes of Model/Checker.v; Proofs/CheckerCompileTie.v: equal to [check_registry] *)
+Definition cls (e : check_err) : rej :=
+  match e with
+  | CKLetIj => RLetIj
+  | CKCallNotFound _ => RNoTemplate
+  | CKUndeclaredParams _ => RUndeclaredParam
+  | CKMissingParams _ _ => RMissingParam
+  | CKUnusedLets _ => RUnusedLet
+  | CKDataRefNotFound _ _ => RUnbound
+  | CKHeaderParam => RHeaderParam
+  | CKUnusedParams _ => RUnusedParam
+  | CKBadCallParam => RBadCallParam
+  | CKLoopFunc _ _ => RLoopFunc
+  | CKOutOfFuel => RShape
+  end.
+Definition verdict_of_failure (o : option (bstr * check_err)) : verdict :=
+  match o with None => Accept | Some (_, e) => Reject (cls e) end.
+Definition check_registry_c13 (reg : registry) : verdict :=
+  verdict_of_failure (first_failure (check_template (sorted_after (fun ks => ks)) (find_template (r_templates reg))) (r_templates reg)).
